@@ -526,6 +526,13 @@ class ProgGen:
         if allow_symbols and r < 0.92:
             name = self.const_for(value)
             return [("t", name, "sym")]
+        if allow_symbols and r < 0.96 and self.labels:
+            # a conditional whose branches are literals but whose condition looks at a label (possibly defined further
+            # down: taken as 0 while the first pass guesses): the value is only known once the layout is
+            lab = rng.choice([l for l in self.labels if len(l) == 1] or self.labels)
+            other = value ^ 1
+            cond = ("bin", rng.choice([">", ">="]), ("var", 0, list(lab)), num(rng.choice([0, 1, 2, 4])))
+            return [("t", "("), ("e", ("tern", cond, num(value), num(other))), ("t", ")")]
         return [("e", exprgen.lit_int(rng, abs(value), "d"))] if value >= 0 else [("e", ("neg", num(-value)))]
 
     def const_for(self, value):
